@@ -131,6 +131,13 @@ structure Obs where
   probes : List FetchObs
   reopened : List ListObs    -- one per query, from a store re-opened from disk after the last step
   reopenSame : Bool          -- `NewOCIRepository(path)` lists and fetches the same as that store
+  retained : Bool            -- history of results: every result returned so far (envelope bytes, blob
+                             -- descriptors, the descriptor slices handed to the listing callback and their
+                             -- annotation maps) still has, after all later calls on this and on other
+                             -- repositories, the value it had when it was returned
+  unaliased : Bool           -- returned envelope slices, descriptor slices and annotation maps share no memory
+                             -- with each other nor with caller-owned input (pushed envelope, annotation map);
+                             -- overwriting all of those changes nothing the repository returns afterwards
   deriving DecidableEq, Repr, FromJson, ToJson
 
 /-! ### push -/
@@ -249,7 +256,10 @@ def run (i : Input) : Obs :=
   { steps := r.1,
     probes := i.probes.map (fetchSig r.2),
     reopened := if i.reopenOk then i.queries.map (listObs .exact r.2) else [],
-    reopenSame := true }
+    reopenSame := true,
+    -- results are values: nothing a later call does can change them
+    retained := true,
+    unaliased := true }
 
 /-! ### specification: what a history (newest operation first) means -/
 
@@ -418,7 +428,10 @@ def clauses (i : Input) (o : Obs) : Clauses :=
         match probeTarget H d with
         | some op => f == expectFetch H op
         | none => true)),
-    ("reopen_same", o.reopenSame) ]
+    ("reopen_same", o.reopenSame),
+    -- "identical envelope bytes" is a lasting fact: a result stays what it was when it was returned
+    ("earlier_results_unchanged", o.retained),
+    ("results_not_aliased", o.unaliased) ]
 
 def Holds (i : Input) (o : Obs) : Bool := (clauses i o).holds
 
